@@ -92,6 +92,11 @@ class Check:
             m = f.get("match", {})
             ok = True
             for k, v in m.items():
+                if k.endswith("_include"):
+                    if v not in (signature.get(k[:-len("_include")]) or []):
+                        ok = False
+                        break
+                    continue
                 sv = signature.get(k)
                 if isinstance(v, list):
                     if isinstance(sv, list):
